@@ -1,6 +1,6 @@
 (* C11 — property theorems only: each restates the full statement and is closed by the lemma proved in Proofs/. *)
 From Coq Require Import ZArith List Bool.
-From NPS Require Import ListAux PySlice NumpySem Scatter BuildIdx XorBroadcast View Index Assign Reduce Scan RaOps Heap Hash HashRun BitArr RLE RLEOps RLE2d DataClass RowsSpec AssignSpec MapSpec Denote HashInit HashSet HashProof HashEq.
+From NPS Require Import ListAux PySlice NumpySem Scatter BuildIdx XorBroadcast View Index Assign Reduce Scan RaOps Heap Hash HashRun BitArr RLE RLEOps RLE2d DataClass RowsSpec AssignSpec MapSpec Denote HashInit HashSet HashProof HashEq HashItems.
 Import ListNotations.
 Open Scope Z_scope.
 
@@ -54,3 +54,11 @@ Theorem C11_tbl_eq_correct :
        Inv V dv t2 d2 -> tbl_eq V veq dv t1 t2 = true <-> (forall k : Z, aget V d1 k = aget V d2 k).
 Proof. exact tbl_eq_correct. Qed.
 Print Assumptions C11_tbl_eq_correct.
+
+Theorem C11_items_correct :
+  forall (V : Type) (dv : V) (t : table V) (d : assoc V),
+       Inv V dv t d ->
+       NoDup (map fst (items V dv t)) /\
+       (forall (k : Z) (v : V), In (k, v) (items V dv t) <-> aget V d k = Some v).
+Proof. exact items_correct. Qed.
+Print Assumptions C11_items_correct.
